@@ -34,6 +34,7 @@ def shards(tier, seed):
     out = [{"lane": "table", "part": i, "parts": 4, "tier": tier, "seed": seed} for i in range(4)]
     out.append({"lane": "recorded", "tier": tier, "seed": seed})
     out.append({"lane": "path", "tier": tier, "seed": seed})
+    out.append({"lane": "wire-format", "tier": tier, "seed": seed})
     for i in range(4 if tier == "quick" else 16):
         out.append({"lane": "horizon", "shard": i, "tier": tier, "seed": seed})
     return out
@@ -271,9 +272,51 @@ def lane_path(a, spec):
         cb = world.coinbase(h, ref.subsidy(h), key)
         rb = ref.RBlock(h, prev, cb.id(), world.genesis.ts + h, ref.INITIAL_TARGET, h, b"\x00" * 32, b"\x00" * 32, b"\x00" * 32, [cb])
         real = bridge.rblock_to_real(rb)
+        # the id this code gives the block must be the id the network's wire format gives it (the reference encoder states
+        # that format independently); otherwise the next block's parent is unknown to the node
+        a.inc("path_ids_compared_with_network_format")
+        if real.hash() != rb.id():
+            a.v("block-id-differs-from-network-format", "a block at height %d built from its fields gets id %s.., the network's "
+                "encoding of the same block has id %s..: a node running this code leaves the real chain at that height" % (
+                    h, real.hash().hex()[:12], rb.id().hex()[:12]), {"lane": "path", "height": h})
+            break
         cs = cs.add_block_no_validation(real)
         prev = world.chain.add(rb)
     a.samples.append({"lane": "path", "prefix_blocks": 1000})
+
+
+def lane_wire_format(a, spec):
+    """headers in the network's wire format at EVERY checkpointed height (and at the heights where the length of the height
+    field changes): this code must decode them, give them the double SHA-256 of those bytes as id, and re-encode them to
+    the same bytes -- the precondition for any real block at that height to keep its checkpointed id"""
+    import hashlib
+    import skepticoin.consensus as cons
+    import skepticoin.datatypes as dt
+    blocks = env.recorded_blocks()
+    base = ref.parse_block(blocks[-1][2])
+    heights = sorted(set(cons.KNOWN_HASHES) | {63, 64, 65, 127, 128, 8191, 8192, 16383, 16384, (1 << 20) - 1, 1 << 20, (1 << 21) - 1,
+                                               1 << 21, (1 << 28) - 1, 1 << 28})
+    for h in heights:
+        rb = ref.RBlock(h, base.prev, base.merkle, base.ts, base.target, base.nonce, base.sh, base.cs, base.bh, base.txs)
+        wire = rb.header_enc()
+        exp = hashlib.sha256(hashlib.sha256(wire).digest()).digest()
+        a.n += 1
+        a.inc("wire_format_headers")
+        w = {"lane": "wire-format", "height": h, "bytes": wire.hex()}
+        try:
+            hdr = dt.BlockHeader.deserialize(wire)
+        except Exception as e:
+            a.v("network-format-header-refused", "a header in the network's wire format at height %d is refused: %r" % (h, e), w)
+            continue
+        if hdr.hash() != exp or hdr.serialize() != wire:
+            a.v("block-id-differs-from-network-format", "a header decoded from the network's wire format at height %d %s" % (
+                h, "gets another id than the double SHA-256 of its bytes" if hdr.hash() != exp else "re-encodes to other bytes"), w)
+        built = dt.BlockHeader(dt.BlockSummary(h, base.prev, base.merkle, base.ts, base.target, base.nonce),
+                               dt.PowEvidence(base.sh, base.cs, base.bh))
+        if built.hash() != exp:
+            a.v("block-id-differs-from-network-format", "a header built from its fields at height %d gets id %s.., the network's "
+                "encoding has id %s.." % (h, built.hash().hex()[:12], exp.hex()[:12]), w)
+    a.samples.append({"lane": "wire-format", "heights": len(heights)})
 
 
 def lane_horizon(a, spec):
@@ -354,6 +397,9 @@ def run_shard(spec):
     elif lane == "path":
         env.boot(fake_scrypt=True, horizon_off=False)
         lane_path(a, spec)
+    elif lane == "wire-format":
+        env.boot(fake_scrypt=False, horizon_off=False)
+        lane_wire_format(a, spec)
     else:
         env.boot(fake_scrypt=True, horizon_off=True)
         lane_horizon(a, spec)
@@ -372,6 +418,8 @@ def finalize(m, tier):
                    ("in_state_passed_real_scrypt", c.get("in_state_passed_real_scrypt", 0), 5),
                    ("recorded_blocks_validated_on_side_branch", c.get("recorded_blocks_validated_on_side_branch", 0), 8),
                    ("horizon_at_horizon_height", c.get("horizon_at_horizon_height", 0), 20),
-                   ("path_wrong_id_at_checkpoint", c.get("path_wrong_id_at_checkpoint", 0), 2)],
+                   ("path_wrong_id_at_checkpoint", c.get("path_wrong_id_at_checkpoint", 0), 2),
+                   ("wire_format_headers", c.get("wire_format_headers", 0), 327),
+                   ("path_ids_compared_with_network_format", c.get("path_ids_compared_with_network_format", 0), 1000)],
         "extra": {},
     }
